@@ -665,6 +665,37 @@ fn c20_value(x: u64, rep: &mut Report) {
     if (!bb).0 != !x || (!&bb).0 != !x {
         rep.violation("C20/not", format!("{:016x}", x));
     }
+    // the same object as both borrowed operands
+    if (&bb & &bb).0 != x || (&bb | &bb).0 != x || (&bb ^ &bb).0 != 0 {
+        rep.violation("C20/operator/same-object-borrowed-twice", format!("{:016x}: &x&&x={:016x} &x|&x={:016x} &x^&x={:016x}", x, (&bb & &bb).0, (&bb | &bb).0, (&bb ^ &bb).0));
+    }
+    // the other ways of consuming the iterator must agree with plain iteration
+    let n = want.len();
+    let (lo, hi) = bb.size_hint();
+    if lo > n || hi.map_or(false, |h| h < n) {
+        rep.violation("C20/iteration/size_hint", format!("{:016x} size_hint=({}, {:?}) but {} squares", x, lo, hi, n));
+    }
+    if bb.last().map(|s| s.to_int()) != want.last().cloned() {
+        rep.violation("C20/iteration/last", format!("{:016x}", x));
+    }
+    // (sampled by value to keep the quick tier short; structured values all qualify through popcnt)
+    let ks: &[usize] = if x % 3 == 0 || n <= 8 || n >= 56 { &[0usize, 1, 2, 7, 63, 64, 1usize << 32, (1usize << 32) + 1, (1usize << 40) + 2, usize::MAX] } else { &[] };
+    for k in ks.iter().chain([n.wrapping_sub(1), n, n + 1].iter()) {
+        let w = if *k < n { Some(want[*k]) } else { None };
+        let mut it = bb;
+        if it.nth(*k).map(|s| s.to_int()) != w {
+            rep.violation("C20/iteration/nth", format!("{:016x}.nth({}) != {:?}", x, k, w));
+        }
+        let sk: usize = bb.skip(*k).count();
+        if sk != n.saturating_sub(*k) {
+            rep.violation("C20/iteration/skip", format!("{:016x}.skip({}).count() = {} want {}", x, k, sk, n.saturating_sub(*k)));
+        }
+    }
+    let st: Vec<u8> = bb.step_by(2).map(|s| s.to_int()).collect();
+    let ws: Vec<u8> = want.iter().cloned().step_by(2).collect();
+    if st != ws {
+        rep.violation("C20/iteration/step_by", format!("{:016x}", x));
+    }
 }
 
 fn c20_pair(a: u64, b: u64, rep: &mut Report) {
